@@ -7,8 +7,8 @@ Property theorems only (helper lemmas live in `Lemmas/Console`, `Lemmas/Html`, `
 
 The model (`Model/Console.lean`) is parameterised by the code variant.  The theorems are proved for the
 *repaired* behaviour (`recordInRender = false`: the record is appended to where the file is written,
-`mergeCtl = false`: today's `Segment.simplify`, for the HTML text either `escapeHref = true` or links free of `>`,
-and for nested capture blocks `captureMarks = true`); the `old_…` / `nested_capture_steals` witnesses show, by evaluation, that the code as it stands violates the statement.
+`mergeCtl = false`: the `Segment.simplify` after fix b97fe77, for the HTML text either `escapeHref = true` or links free of `>`,
+and for nested capture blocks `captureMarks = true`); the `old_…` / `nested_capture_steals` witnesses show, by evaluation, that rich 9.10.0 as found (`Variant.today` — the name dates from before the `fix:` commits 114bbe8, e488480, 1202b8a) violates the statement; /repo now contains `Variant.repaired`.
 
 Vocabulary: `exec v cfg env ops s` is the state after the history `ops`; `s.file` is the list of strings
 written to the file, each kept as the pieces it is made of; `fileVisible` is the text of the non-control
@@ -226,7 +226,7 @@ theorem capture_returns_and_withholds (v : Variant) (cfg : Config) (env : StyleE
 returns exactly the rendering of what the operations directly inside it appended — the same string they would
 write outside a capture — and, when it sits inside another block, leaves the enclosing block's pending buffer,
 its marks, the depth and the file exactly as they were.  So blocks compose: an inner block is invisible to the
-enclosing one.  (Today's code: `nested_capture_steals`.) -/
+enclosing one.  (rich 9.10.0 as found, before fix 1202b8a: `nested_capture_steals`.) -/
 theorem capture_block_transparent (v : Variant) (cfg : Config) (env : StyleEnv σ) (s : State σ)
     (inner : List (Op σ)) (hm : v.captureMarks = true) (hi : 0 ≤ s.index)
     (hinner : inner.all (fun op => !isCapture op) = true) :
@@ -301,7 +301,7 @@ theorem capture_not_recorded (v : Variant) (cfg : Config) (env : StyleEnv σ) (s
   unfold checkBuffer
   simp [h0, renderBuffer, hv, hr, hrec]
 
-/-! ## Witnesses: the defects found in the code as it stands (machine-checked negations for the variants
+/-! ## Witnesses: the defects found in rich 9.10.0 as found, all repaired in /repo since (machine-checked negations for the variants
 selected by the flags of `Variant`), and the nested-capture behaviour. -/
 
 /-- A style table for the witnesses: style 1 is bold (SGR 1), style 2 carries the link `a">b`. -/
@@ -316,7 +316,7 @@ def wEnv : StyleEnv Nat :=
 def wCfg : Config :=
   { record := true, colorNone := false, isTerminal := true, termDumb := false, noColor := false, legacyWindows := false }
 
-/-- F17 (today's code, `recordInRender = true`): text printed inside a capture block is exported although it never
+/-- F17 (rich 9.10.0 as found, before fix 114bbe8; `recordInRender = true`): text printed inside a capture block is exported although it never
 reached the file. -/
 theorem old_capture_is_recorded :
     let s := exec Variant.today wCfg wEnv [.beginCapture, .print [{ text := ['x'], style := none }], .endCapture] {}
@@ -329,7 +329,7 @@ example :
 
 /-- Nested capture blocks (`captureMarks = false`, with or without the other repairs): the inner `end_capture` returns what was printed in the *outer* block
 before the inner one began, and the outer capture returns nothing — `capture_returns_and_withholds` cannot be
-extended to nested blocks on this code. -/
+extended to nested blocks on this code (rich 9.10.0 as found; repaired by fix 1202b8a). -/
 theorem nested_capture_steals (v : Variant) (hv : v = Variant.today ∨ v = { Variant.repaired with captureMarks := false }) :
     (run v wCfg wEnv [.beginCapture, .print [{ text := ['x'], style := none }], .beginCapture, .endCapture, .endCapture] {}).2
       = [.none, .none, .none, .captured ['x'], .captured []] := by
@@ -340,7 +340,7 @@ example :
     (run Variant.repaired wCfg wEnv [.beginCapture, .print [{ text := ['x'], style := none }], .beginCapture, .endCapture, .endCapture] {}).2
       = [.none, .none, .none, .captured [], .captured ['x']] := by decide
 
-/-- Today's `href` (`escapeHref = false`): a link containing `">` ends the tag early, and its tail shows up as text. -/
+/-- The `href` of rich 9.10.0 as found, before fix e488480 (`escapeHref = false`): a link containing `">` ends the tag early, and its tail shows up as text. -/
 theorem old_href_breaks_html :
     htmlDecode (flatFrags (exportHtmlParts Variant.today wEnv true [{ text := ['x'], style := some 2 }]).1)
       ≠ exportPlain ([{ text := ['x'], style := some 2 }] : List (Segment Nat)) := by decide
